@@ -20,6 +20,8 @@ CONSTANTS Fields,        \* tamperable content fields (not identity, hash, signa
           HashInput,     \* fields covered by the hash (model parameter: intended or as coded)
           KeyInObject,   \* TRUE: the public key travels in the object and must hash to the identity (txn)
                          \* FALSE: the key is looked up in a registry by identity (block generator)
+          DupShapes,     \* blocks only: set of <<n, i>> = "the block carries n transactions and the i-th one is
+                         \* repeated (appended once more)"; {} for objects that carry no list (txn)
           MaxSteps
 
 VARIABLES alt,        \* content fields whose value differs from the genuine object
@@ -28,35 +30,48 @@ VARIABLES alt,        \* content fields whose value differs from the genuine obj
           hashed,     \* the hash field = contents hashed at the last (re)hash
           sigKey, sigHash, sigBroken,
           dup,        \* a transaction is repeated inside the object (blocks only)
+          ntx,        \* number of transactions the block carried when one was repeated (0 = nothing repeated yet:
+                      \* the size of the block is the environment's free choice and matters only for a repetition)
           steps
 
-vars == <<alt, cid, pub, hashed, sigKey, sigHash, sigBroken, dup, steps>>
+vars == <<alt, cid, pub, hashed, sigKey, sigHash, sigBroken, dup, ntx, steps>>
+
+(* The transaction list is hashed as a Merkle tree that pads a level of odd length by pairing its last   *)
+(* node with itself (core/util MerkleTree.ComputeTree; a single leaf t gives the root MHash(t,t)).  So   *)
+(* appending once more the LAST transaction of a block with an odd number of transactions gives the very *)
+(* same transaction root and receipts root: [t] and [t,t], [a,b,c] and [a,b,c,c].  Such a repetition is  *)
+(* invisible to the hash (and therefore to the generator signature); every other repetition changes the  *)
+(* roots like any other alteration of the transaction list.                                               *)
+MerkleNeutral(n, i) == i = n /\ n % 2 = 1
 
 Altered == alt \cup (IF cid = "victim" THEN {} ELSE {"sender"})
 Contents(hi) == Altered \cap hi
 
 Init == /\ alt = {} /\ cid = "victim" /\ pub = "victim" /\ hashed = {}
-        /\ sigKey = "victim" /\ sigHash = {} /\ sigBroken = FALSE /\ dup = FALSE /\ steps = 0
+        /\ sigKey = "victim" /\ sigHash = {} /\ sigBroken = FALSE /\ dup = FALSE /\ ntx = 0 /\ steps = 0
 
 Step == steps < MaxSteps /\ steps' = steps + 1
 
 Tamper(f) == Step /\ f \in Fields /\ f \notin alt /\ alt' = alt \cup {f}
-             /\ UNCHANGED <<cid, pub, hashed, sigKey, sigHash, sigBroken, dup>>
+             /\ UNCHANGED <<cid, pub, hashed, sigKey, sigHash, sigBroken, dup, ntx>>
 SetSender == Step /\ cid = "victim" /\ cid' = "attacker"
              /\ pub' = (IF KeyInObject THEN pub ELSE "attacker")     \* registry lookup follows the identity
-             /\ UNCHANGED <<alt, hashed, sigKey, sigHash, sigBroken, dup>>
+             /\ UNCHANGED <<alt, hashed, sigKey, sigHash, sigBroken, dup, ntx>>
 SetPub == Step /\ KeyInObject /\ pub = "victim" /\ pub' = "attacker"
-          /\ UNCHANGED <<alt, cid, hashed, sigKey, sigHash, sigBroken, dup>>
+          /\ UNCHANGED <<alt, cid, hashed, sigKey, sigHash, sigBroken, dup, ntx>>
 Rehash == Step /\ hashed' = Contents(HashInput)
-          /\ UNCHANGED <<alt, cid, pub, sigKey, sigHash, sigBroken, dup>>
+          /\ UNCHANGED <<alt, cid, pub, sigKey, sigHash, sigBroken, dup, ntx>>
 Resign == Step /\ sigKey' = "attacker" /\ sigHash' = hashed /\ sigBroken' = FALSE   \* only with his own key
-          /\ UNCHANGED <<alt, cid, pub, hashed, dup>>
+          /\ UNCHANGED <<alt, cid, pub, hashed, dup, ntx>>
 BreakSig == Step /\ ~sigBroken /\ sigBroken' = TRUE
-          /\ UNCHANGED <<alt, cid, pub, hashed, sigKey, sigHash, dup>>
-Duplicate == Step /\ ~KeyInObject /\ ~dup /\ dup' = TRUE
-          /\ UNCHANGED <<alt, cid, pub, hashed, sigKey, sigHash, sigBroken>>
+          /\ UNCHANGED <<alt, cid, pub, hashed, sigKey, sigHash, dup, ntx>>
+(* a block that carries n transactions is re-sent with its i-th transaction appended once more *)
+Duplicate(n, i) == Step /\ ~KeyInObject /\ ~dup /\ <<n, i>> \in DupShapes /\ dup' = TRUE /\ ntx' = n
+          /\ alt' = (IF MerkleNeutral(n, i) THEN alt ELSE alt \cup {"txns"})
+          /\ UNCHANGED <<cid, pub, hashed, sigKey, sigHash, sigBroken>>
 
-Next == (\E f \in Fields : Tamper(f)) \/ SetSender \/ SetPub \/ Rehash \/ Resign \/ BreakSig \/ Duplicate
+Next == (\E f \in Fields : Tamper(f)) \/ SetSender \/ SetPub \/ Rehash \/ Resign \/ BreakSig
+        \/ (\E sh \in DupShapes : Duplicate(sh[1], sh[2]))
 Spec == Init /\ [][Next]_vars
 
 (* the receiver's verdict, for a given hash input *)
@@ -73,4 +88,17 @@ GenuineAccepted == Genuine => Valid(HashInput)
 (* equivalent formulation used on recorded executions: whatever the code accepts *)
 (* must be valid when the hash covers every MustBind field                        *)
 AcceptedOnlyIfIntended == Valid(HashInput) => Valid(MustBind \cup HashInput)
+(* "... or that repeats a transaction, is rejected" *)
+RepeatRejected == dup => ~Valid(HashInput)
+(* what the receiver would decide WITHOUT the repetition check: hash and signature alone *)
+ValidHashSig(hi) == /\ hashed = Contents(hi) /\ sigHash = hashed /\ ~sigBroken /\ sigKey = pub
+                    /\ (KeyInObject => pub = cid)
+(* hash and signature cannot stand in for the repetition check: a Merkle-neutral repetition of the      *)
+(* otherwise genuine block (e.g. the one-step behaviour Duplicate(1,1): [t] re-sent as [t,t]) passes      *)
+(* both, so the repetition check is the only thing that rejects it.                                       *)
+NeutralRepeatPassesHashSig ==
+  (dup /\ Altered = {} /\ hashed = {} /\ sigKey = "victim" /\ sigHash = {} /\ ~sigBroken /\ pub = "victim")
+     => (ValidHashSig(HashInput) /\ ~Valid(HashInput))
+(* ... and a repetition that is not Merkle-neutral is an alteration of the transaction list *)
+RepeatAltersUnlessNeutral == (dup /\ ntx > 0) => (("txns" \in alt) \/ ntx % 2 = 1)
 =============================================================================
